@@ -21,6 +21,7 @@ func init() { register("C03", checkC03) }
 // (and, transitively, by those executors themselves).
 func liveATExecutors(w *core.World) (dispatch *core.FuncInfo, live []*types.Named) {
 	ex := w.Interface("pkg/datasource/sql/exec/at", "executor")
+	exNamed := w.NamedType("pkg/datasource/sql/exec/at", "executor")
 	if ex == nil {
 		return nil, nil
 	}
@@ -40,6 +41,7 @@ func liveATExecutors(w *core.World) (dispatch *core.FuncInfo, live []*types.Name
 		}
 	}
 	seen := map[*types.Named]bool{}
+	visited := map[*core.FuncInfo]bool{}
 	var visit func(f *core.FuncInfo, depth int)
 	visit = func(f *core.FuncInfo, depth int) {
 		if f == nil || depth > 4 {
@@ -49,6 +51,14 @@ func liveATExecutors(w *core.World) (dispatch *core.FuncInfo, live []*types.Name
 			c := w.Info(cs.Static)
 			if c == nil || c.Pkg.PkgPath != pExecAT || cs.Iface {
 				continue
+			}
+			// a helper of the package that hands back the interface (chooses the executor): the constructors are
+			// behind it
+			if sig := c.Obj.Type().(*types.Signature); sig.Results().Len() == 1 {
+				if rt, ok := sig.Results().At(0).Type().(*types.Named); ok && rt == exNamed && !visited[c] {
+					visited[c] = true
+					visit(c, depth+1)
+				}
 			}
 			for _, t := range returnedTypes(c) {
 				if impl[t] && !seen[t] {
